@@ -280,29 +280,37 @@ def r3(F, rep):
 
 def self_default(F, rep, rid, only=None):
     """Shared with C18-R6 (period / wrapAround)."""
-    rep.rule(rid, "re-entrant parameter reader: colvar::cvc::init() is run again by `modifycvcs` with a partial configuration; every "
-                  "get_keyval() in it that fills a data member uses that same member as its default value, so that parameters "
-                  "the new text does not mention keep their current values")
-    f = F.one("colvar::cvc::init")
+    rep.rule(rid, "re-entrant parameter readers: colvar::cvc::init() is run again by `modifycvcs` with a partial text, and "
+                  "colvarmodule::parse_global_params() runs on every configuration chunk; every get_keyval() in them that fills "
+                  "persistent storage (a data member or a static, not a local) uses that same storage as its default value, so "
+                  "that parameters the new text does not mention keep their current values")
     n = 0
-    for c in X.calls(f):
-        if X.callee_name(c) != "get_keyval":
-            continue
-        a = X.call_args(c)
-        if len(a) < 4:
-            continue
-        t = X.strip(a[2])
-        if t["k"] != "MemberExpr" or not X.key(t, f).startswith("this."):
-            continue
-        if only is not None and t.get("n") not in only:
-            continue
-        n += 1
-        ok = X.key(a[3], f) == X.key(a[2], f)
-        rep.add(rid, "cvc::init|%s" % X.key(a[1], f), f.loc(c), "keyword %s fills `%s`; its default is %s" % (
-            X.key(a[1], f), t.get("n"), "the member itself" if ok else "`%s`" % X.text(a[3], f)[:40]), ok,
-            detail="`cv colvar <name> modifycvcs` with a text that does not repeat this keyword resets the parameter", func=f.q)
-    if n < (2 if only else 6):
-        raise AnalysisBroken("%s: only %d member-filling keywords found in colvar::cvc::init" % (rid, n))
+    for q in ("colvar::cvc::init", "colvarmodule::parse_global_params"):
+        f = F.one(q)
+        m = 0
+        for c in X.calls(f):
+            if X.callee_name(c) != "get_keyval":
+                continue
+            a = X.call_args(c)
+            if len(a) < 4:
+                continue
+            t = X.strip(a[2])
+            persistent = (t["k"] == "MemberExpr" and X.key(t, f).startswith("this.")) or \
+                         (t["k"] == "DeclRefExpr" and t.get("st") not in ("local", "param"))
+            if not persistent:
+                continue
+            if only is not None and t.get("n") not in only:
+                continue
+            m += 1
+            ok = X.key(a[3], f) == X.key(a[2], f)
+            rep.add(rid, "%s|%s" % (q.split("::", 1)[-1], X.key(a[1], f)), f.loc(c), "%s: keyword %s fills `%s`; its default is %s" % (
+                q, X.key(a[1], f), t.get("n"), "the same storage" if ok else "`%s`" % X.text(a[3], f)[:40]), ok,
+                detail="a later configuration text that does not repeat this keyword resets the parameter", func=f.q)
+        n += m
+        if only is None and m < 6:
+            raise AnalysisBroken("%s: only %d keywords filling persistent storage found in %s" % (rid, m, q))
+    if n < 2:
+        raise AnalysisBroken("%s: only %d keywords found" % (rid, n))
 
 
 def r9(F, rep):
